@@ -3,8 +3,8 @@
 # copies a confirmed mutation from /tmp/mut/<ID>/MUTATION/<m> to /verif/seeded/<ID>-<m>/
 set -u
 id="$1"; m="$2"; caught="$3"
-src=/tmp/mut/$id/MUTATION/$m
-dst=/verif/seeded/$id-$m
+src=${MUTROOT:-/tmp/mut}/$id/MUTATION/$m
+dst=/verif/seeded/$id-${KEEPAS:-$m}
 mkdir -p $dst
 cp $src/patch.diff $dst/patch.diff
 cp $src/demo.rs $dst/demo.rs
